@@ -50,10 +50,11 @@ def position_struct(hdr, kb):
     """extract the field list of struct Position mechanically."""
     sl = hdr.slice_block("struct Position")
     fields = []
-    for mm in re.finditer(r"^\s*(int|const char \*)\s*(\w+)\s*=\s*[^;]+;", sl.body, re.M):
-        fields.append((mm.group(1), mm.group(2)))
+    # the members keep the types they have in the source (a narrower column type makes the C20 step lemma fail, as it should)
+    for mm in re.finditer(r"^\s*(int|long|short|unsigned|size_t|(?:std::)?u?int(?:8|16|32|64)_t|const char \*)\s*(\w+)\s*=\s*[^;]+;", sl.body, re.M):
+        fields.append((mm.group(1).replace("std::", ""), mm.group(2)))
     names = [f[1] for f in fields]
-    if names != POSITION_FIELDS:
+    if sorted(names) != sorted(POSITION_FIELDS):
         raise ExtractionBreak("struct Position fields changed: %r" % names)
     kb.slices.append(("struct Position", sl.where(), sl.sha))
     txt = "typedef struct Position {\n" + "".join("  %s %s;\n" % f for f in fields) + "} Position;\n"
